@@ -1100,6 +1100,12 @@ void destruct_object (object_t * ob) {
               error ("*Destruction of vital object rejected due to invalid config setting (\"%s\").", vital_obj_name);
             }
           opt_trace (TT_EVAL|1, "reloading vital object: /%s", tmp);
+          /* An earlier reload that failed in create() has left its half-made copy in
+           * the name table under our name (we are hidden as ""). It has to go first:
+           * the table takes no second object of that name, and removing ourselves
+           * below would then unlink the wrong object. */
+          if ((new_ob = lookup_object_hash (tmp)))
+            destruct_object (new_ob);
           new_ob = load_object (tmp, 0);
           if (!new_ob)
             {
